@@ -143,8 +143,8 @@ CHECKS = {
         "technique": "property-based testing (rapid) of generated waiter/signal scripts in testing/synctest bubbles; counting oracle after quiescence",
         "rule": ("plans: k in 1..5 waiters each parked or held in the unlock-to-park window, 0-8 steps. non-trivial = k >= 2 and a Signal or Broadcast is issued while some waiter is in the window; distinct = distinct plan JSON; every plan is executed R times (quick 3, thorough 10)"),
         "assumptions": ["testing/synctest durable-block detection", "the gated Locker identifies the unlocking waiter because Lock is exclusive", "rapid v1.3.0; go1.26.8"],
-        "jobs": [{"pkg": "c16cond", "kinds": ["cond"], "scale_thorough": 10, "shards_thorough": 16, "replay_reps": 50},
-                 {"pkg": "c16cond", "race": True, "kinds": ["cond"], "scale_quick": 0.15, "scale_thorough": 2, "shards_thorough": 4, "replay_reps": 20}],
+        "jobs": [{"pkg": "c16cond", "kinds": ["cond", "broadcast-storm"], "scale_thorough": 10, "shards_thorough": 16, "replay_reps": 50},
+                 {"pkg": "c16cond", "race": True, "kinds": ["cond", "broadcast-storm"], "scale_quick": 0.15, "scale_thorough": 2, "shards_thorough": 4, "replay_reps": 20}],
     },
     "C11": {
         "level": "exploration",
@@ -232,8 +232,8 @@ CHECKS = {
                  "trigger-first-call (racing first calls of a trigger function, then triggers during runs), pot-old-timers (PeriodicOrTrigger under asynctimerchan=1 on the real clock). group plans: non-trivial = a trigger call landed while its function was running, or a registration raced with the stop; distinct = distinct plan JSON; R=3/10"),
         "assumptions": ["testing/synctest", "rapid v1.3.0; go1.26.8"],
         "jobs": [{"pkg": "c17old", "kinds": ["pot-old-timers"], "scale_thorough": 4, "shards_thorough": 4},
-                 {"pkg": "c17group", "kinds": ["group", "stop-storm", "trigger-first-call"], "scale_thorough": 10, "shards_thorough": 16, "replay_reps": 30},
-                 {"pkg": "c17group", "race": True, "kinds": ["group", "stop-storm", "trigger-first-call"], "scale_quick": 0.15, "scale_thorough": 2, "shards_thorough": 4, "replay_reps": 20}],
+                 {"pkg": "c17group", "kinds": ["group", "stop-storm", "trigger-first-call", "trigger-storm"], "scale_thorough": 10, "shards_thorough": 16, "replay_reps": 30},
+                 {"pkg": "c17group", "race": True, "kinds": ["group", "stop-storm", "trigger-first-call", "trigger-storm"], "scale_quick": 0.15, "scale_thorough": 2, "shards_thorough": 4, "replay_reps": 20}],
     },
     "C19": {
         "level": "exploration",
